@@ -30,6 +30,8 @@ def cmp_key(v):
         return ["method", id(v.__func__)]
     if inspect.isfunction(v) or inspect.isbuiltin(v) or inspect.isclass(v) or inspect.ismodule(v):
         return ["identity", id(v)]
+    if isinstance(v, float) and v != v:
+        return ["nan", id(v)]  # NaN equals nothing but the very same object (identity-then-equality, as in containers)
     if isinstance(v, (int, float)) and not isinstance(v, bool) or isinstance(v, bool):
         return ["num", repr(float(v))]  # Python number equality: 2 == 2.0 == True + 1
     # plain Python equality semantics: dicts (and the key index of keyed containers) ignore insertion order
@@ -116,6 +118,13 @@ class C10(HistoryCheck):
                 v = s.choice(SPECIAL_VALUES + [["selfref", "direct"], ["selfref", "list"], ["selfref", "klist"], ["selfref", "dict"], ["selfref", "kset"],
                                                ["ownmeth", "self"], ["ownmeth", "twin"]])
                 return {"op": "set", "on": {"i": iid}, "a": s.choice(anys), "v": v, "id": world.fresh_id()}
+        if world.insts and s.chance(0.05):
+            # a float attribute holds NaN: a value that is not equal to itself (equality must stay reflexive all the same)
+            iid = gen.pick_inst()
+            role = world.role_of(world.insts[iid])
+            fl = [n for n, a in world.info(role).items() if a["kind"] == "float" and a.get("flags", {}).get("init") is not False]
+            if fl:
+                return {"op": "set", "on": {"i": iid}, "a": s.choice(fl), "v": ["float", "nan"], "id": world.fresh_id()}
         if world.insts and s.chance(0.08):
             # nested keyed item loses its key attribute (legal: `del item.k`); the parent's repr must cope
             iid = gen.pick_inst()
